@@ -29,3 +29,11 @@ VARIANTS += [
     M('C08', 'class-level-type-memo', E(DR, "    def get_database_column_type(self, tablename, colname):\n        typeMap = {", "    column_types = {}\n\n    def get_database_column_type(self, tablename, colname):\n        if (tablename, colname) in self.column_types:\n            return self.column_types[(tablename, colname)]\n        self.column_types[(tablename, colname)] = None\n        typeMap = {"),
       rule='C08-NOSHARED', key='column_types'),
 ]
+
+VARIANTS += [
+    M('C08', 'handler-rolls-back-callers-transaction', E(DR, "        self.cursor = db.connection.cursor()", "        self.dbc.rollback()\n        self.cursor = self.dbc.cursor()"),
+      rule='C08-READONLY', key='SQLDatabaseHandler.__init__'),
+    M('C08', 'execute_scalar-commits', E(DR, "    def execute_scalar(self, sql):\n", "    def execute_scalar(self, sql):\n        self.dbc.commit()\n"),
+      rule='C08-READONLY', key='execute_scalar'),
+    M('C08', 'refactor-cursor-from-dbc', E(DR, "        self.cursor = db.connection.cursor()", "        self.cursor = self.dbc.cursor()"), kind='refactor'),
+]
